@@ -281,6 +281,11 @@ def run_property(prop, tier, seed, replay=None, jobs=None, only=None):
     svg, src_file, sha = load_repo()
     mod = importlib.import_module("props." + prop.lower())
     subs = mod.build(tier, seed, svg)
+    if os.environ.get("VERIF_CROSSTALK", "1") != "0":
+        # every sub-check once more with the predecessor as a dimension (ordered pairs of its cases in one process)
+        from mc import crosstalk
+        subs = subs + crosstalk.wrap_all([s for s in subs if not only or s.name in only or "after:" + s.name in only],
+                                         tier, seed)
     if only:
         subs = [s for s in subs if s.name in only]
     matchers = getattr(mod, "MATCHERS", {})
